@@ -394,3 +394,16 @@ func HasSkipOnlyVariable(d *Doc) bool {
 	}
 	return false
 }
+
+// HasUnionSpreadInOtherUnion reports whether the document spreads a named
+// fragment whose type condition is a union inside a selection set whose parent
+// type is a different union.
+func HasUnionSpreadInOtherUnion(s *Schema, d *Doc) bool {
+	found := false
+	Walk(s, d, &Visitor{Spread: func(c *SpreadCtx) {
+		if c.Def != nil && c.Def.TypeCond != c.Parent && s.kindOf(c.Parent) == "union" && s.kindOf(c.Def.TypeCond) == "union" {
+			found = true
+		}
+	}})
+	return found
+}
